@@ -652,7 +652,7 @@ func init() {
 				"a:at:v0 " + ra + " b:dc b:co b:slo a:sro a:ca a:sla a:at:v1 b:sra", // answerer blocked in SCTP start
 				"a:at:v0 " + ra + " a:cl a:at:v1 a:dc b:at:v0 " + rb,                // nothing after Close
 				"a:at:v0 a:co a:slo b:sro a:at:v1 a:cl b:ca b:sla b:at:v0",          // Close with queued work
-				"a:co a:slo b:sro b:ca b:sla a:sra a:at:v0",                         // empty descriptions (refused late)
+				"a:co a:slo b:sro b:ca b:sla a:sra a:at:v0",                         // descriptions without m-sections are refused
 			} {
 				c.Emit("h %s", h)
 			}
@@ -660,7 +660,7 @@ func init() {
 				g := &c04Gen{c: c, senders: map[string]int{}, tracks: map[string]int{}, lastSender: map[string]int{}}
 				l := 4 + c.Rng.Intn(9)
 				// four histories in five begin with something to negotiate on the side that offers first
-				// (an offer without m-sections is refused by the peer after the state change)
+				// (an offer without m-sections is refused by the peer: no ICE credentials)
 				if c.Rng.Intn(5) != 0 {
 					g.offerer = g.side()
 					g.step = 0
